@@ -31,13 +31,19 @@ def final_result(lines, wtm):
     return {"best": best, "score": score, "pv": pv, "nodes": nodes}
 
 
-def do_search(eng, fen, go, stop_after=None, timeout=120):
+def do_search(eng, fen, go, stop_after=None, timeout=120, must_finish=False):
     eng.send(f"position fen {fen}")
     eng.send("go " + go)
     if stop_after is not None:
         time.sleep(stop_after)
         eng.send("stop")
     lines, ok = eng.read_until(lambda l: l.startswith("bestmove"), timeout)
+    if not ok and not must_finish:
+        # a prior search only has to leave its traces in the engine's state: if it takes too long (loaded machine, wild position) it is
+        # stopped like a GUI user would
+        eng.send("stop")
+        more, ok = eng.read_until(lambda l: l.startswith("bestmove"), 300)
+        lines += more
     return lines if ok else None
 
 
@@ -107,6 +113,9 @@ def session(bdir, sid, seed, corpus, sz, contempt):
             A.send(f"go depth {rnd.randint(5, 7)}")
             lines, ok = A.read_until(lambda l: l.startswith("bestmove"), 120)
             if not ok:
+                A.send("stop")
+                more, ok = A.read_until(lambda l: l.startswith("bestmove"), 300)
+            if not ok:
                 return ev, "no-bestmove in related prior search"
             ev.append({"e": "Cmd", "proc": "A", "kind": "search", "tb": False, "go": "related"})
         if tbsession:
@@ -128,7 +137,7 @@ def session(bdir, sid, seed, corpus, sz, contempt):
         else:
             go = f"nodes {rnd.choice([5000, 30000, 80000])}"
         cmd = f"position fen {probe['fen']} ; go {go} ; net {net} ; {fixed}"
-        lines = do_search(A, probe["fen"], go)
+        lines = do_search(A, probe["fen"], go, timeout=900, must_finish=True)      # probes must run to their own end; generous time-out
         if lines is None:
             return ev, "no-bestmove in probe (A)"
         ra = final_result(lines, wtm)
@@ -142,7 +151,7 @@ def session(bdir, sid, seed, corpus, sz, contempt):
                     if proc == "B":
                         ev.append({"e": "Cmd", "proc": "B", "kind": "setoption", "name": k, "value": v, "isDefault": False})
                 B.isready()
-                lines = do_search(B, probe["fen"], go)
+                lines = do_search(B, probe["fen"], go, timeout=900, must_finish=True)
                 if lines is None:
                     return ev, f"no-bestmove in probe ({proc})"
                 ev.append(dict({"e": "Probe", "proc": proc, "cmd": cmd, "prior": nprior}, **final_result(lines, wtm)))
